@@ -122,7 +122,9 @@ Definition run_L (inp obs : sx) : bool * sx :=
              inside the decorator although fewer than [limit] copies are in
              flight - a permit was not released on some path.
     27     : a ReplicateSingle / ReplicateComposite caller reported success
-             without a successful read of its object from the sink. *)
+             although it neither read its object from the sink nor put it
+             there ("never report success unless the object was found in, or
+             copied to, the sink after that caller asked"). *)
 Definition st_blocked (st : sx) : bool := Z.eqb (sx_Z (sx_nth st 0)) 2.
 Definition st_copying (st : sx) : bool :=
   Z.eqb (sx_Z (sx_nth st 0)) 1 &&
@@ -133,10 +135,12 @@ Definition countb {T} (p : T -> bool) (l : list T) : nat := length (filter p l).
 Definition starved (k : nat) (rd : sx) : bool :=
   Nat.ltb 0 (countb st_blocked (sx_list rd)) && Nat.ltb (countb st_copying (sx_list rd)) k.
 
-(** The sink read of caller i for object d returned OK (log entry kind 2). *)
-Definition read_ok (i d : nat) (e : sx) : bool :=
+(** Caller i read object d from the sink, or put it there, successfully (log
+    entry kind 2: return of a backend call; backend 0 is the sink; op 0 Get,
+    1 Put, 3 GetFromComposite). *)
+Definition sink_ok (i d : nat) (e : sx) : bool :=
   Z.eqb (lg_kind e) 2 && Nat.eqb (lg_caller e) i && Z.eqb (sx_Z (sx_nth e 2)) 0 &&
-  (Z.eqb (sx_Z (sx_nth e 3)) 0 || Z.eqb (sx_Z (sx_nth e 3)) 3) &&
+  (Z.eqb (sx_Z (sx_nth e 3)) 0 || Z.eqb (sx_Z (sx_nth e 3)) 1 || Z.eqb (sx_Z (sx_nth e 3)) 3) &&
   sx_eqb (sx_nth e 4) (of_nats [d]) && Z.eqb (sx_Z (sx_nth e 5)) 0.
 
 Definition mon_counts (m : mode) (mk ma : nat) : list Z :=
@@ -157,7 +161,7 @@ Definition mon_results (kinds : list ekind) (lg : list sx) : list Z :=
     match read_obj (snd p) with
     | Some d =>
         if existsb (fun e => Z.eqb (lg_kind e) 3 && Nat.eqb (lg_caller e) (fst p) && Z.eqb (sx_Z (sx_nth e 2)) 0) lg
-           && negb (existsb (read_ok (fst p) d) lg)
+           && negb (existsb (sink_ok (fst p) d) lg)
         then [27] else []
     | None => []
     end) (combine (seq 0 (length kinds)) kinds).
